@@ -4,8 +4,14 @@ open Py Lean
 namespace Driver.D_no_iban
 def handle (fn : String) (args : List Json) : String :=
   match fn with
+  | "is_valid" => match args with
+    | [a0] => (do let x0 ← Wire.decStr a0; pure (Wire.respondWith Wire.encBool (Gen.no_iban.is_valid x0)) : Option String).getD "badargs"
+    | _ => "badargs"
   | "to_kontonr" => match args with
     | [a0] => (do let x0 ← Wire.decStr a0; pure (Wire.respondWith Wire.encStr (Gen.no_iban.to_kontonr x0)) : Option String).getD "badargs"
+    | _ => "badargs"
+  | "validate" => match args with
+    | [a0] => (do let x0 ← Wire.decStr a0; pure (Wire.respondWith Wire.encStr (Gen.no_iban.validate x0)) : Option String).getD "badargs"
     | _ => "badargs"
   | _ => "nofunc"
 end Driver.D_no_iban
